@@ -13,6 +13,7 @@ mod cost;
 mod gen;
 mod ops;
 mod optable;
+mod structure;
 mod real;
 mod refint;
 mod refval;
@@ -217,34 +218,51 @@ fn cfg_for(prop: Prop, tier: Tier) -> Cfg {
 
 /// The search spaces per property and tier: (alphabet, shape, max body length).
 fn spaces(prop: Prop, tier: Tier) -> Vec<Space> {
-    let i32f = Shape { ret: Some(VT::I32), hosts: false };
-    let i64f = Shape { ret: Some(VT::I64), hosts: false };
-    let unitf = Shape { ret: None, hosts: false };
-    let hosts = Shape { ret: Some(VT::I32), hosts: true };
+    let i32f = Shape { ret: Some(VT::I32), hosts: false, extra: 0 };
+    let i64f = Shape { ret: Some(VT::I64), hosts: false, extra: 0 };
+    let unitf = Shape { ret: None, hosts: false, extra: 0 };
+    let hosts = Shape { ret: Some(VT::I32), hosts: true, extra: 0 };
     let q = tier == Tier::Quick;
     // cheap spaces first: if the wall-clock cap is hit, only the last (largest) space is partial
     match prop {
-        Prop::C01 => vec![
+        Prop::C01 => [1u8, 5, 7]
+            .into_iter()
+            .flat_map(|x| {
+                // more locals than the alphabets refer to: the register numbering of the compiled code shifts
+                [Space { kind: AlphabetKind::Core, shape: Shape { extra: x, ..i32f }, max_len: if q { 3 } else { 5 } }, Space { kind: AlphabetKind::Wide, shape: Shape { extra: x, ..i64f }, max_len: if q { 2 } else { 4 } }, Space { kind: AlphabetKind::Hosts, shape: Shape { extra: x, ..hosts }, max_len: if q { 2 } else { 4 } }]
+            })
+            .chain([
             Space { kind: AlphabetKind::Hosts, shape: hosts, max_len: if q { 4 } else { 6 } },
             Space { kind: AlphabetKind::Wide, shape: i64f, max_len: if q { 4 } else { 5 } },
             Space { kind: AlphabetKind::Core, shape: unitf, max_len: if q { 5 } else { 7 } },
             Space { kind: AlphabetKind::Memory, shape: i32f, max_len: if q { 4 } else { 5 } },
             Space { kind: AlphabetKind::Wide, shape: i32f, max_len: if q { 5 } else { 6 } },
             Space { kind: AlphabetKind::Core, shape: i32f, max_len: if q { 6 } else { 8 } },
-        ],
-        Prop::C02 => vec![
+        ])
+            .collect(),
+        Prop::C02 => (1..=gen::N_EXTRA)
+            .flat_map(|x| {
+                // functions whose locals are declared in runs: the entry charge is by locals
+                [Space { kind: AlphabetKind::Core, shape: Shape { extra: x, ..i32f }, max_len: if q { 2 } else { 4 } }, Space { kind: AlphabetKind::Hosts, shape: Shape { extra: x, ..hosts }, max_len: if q { 2 } else { 3 } }]
+            })
+            .chain([
             Space { kind: AlphabetKind::Core, shape: unitf, max_len: if q { 5 } else { 7 } },
             Space { kind: AlphabetKind::Memory, shape: i32f, max_len: if q { 4 } else { 5 } },
             Space { kind: AlphabetKind::Hosts, shape: hosts, max_len: if q { 5 } else { 6 } },
             Space { kind: AlphabetKind::Wide, shape: i32f, max_len: if q { 4 } else { 6 } },
             Space { kind: AlphabetKind::Core, shape: i32f, max_len: if q { 6 } else { 7 } },
-        ],
-        Prop::C13 => vec![
+        ])
+            .collect(),
+        Prop::C13 => [1u8, 5]
+            .into_iter()
+            .map(|x| Space { kind: AlphabetKind::Hosts, shape: Shape { extra: x, ..hosts }, max_len: if q { 3 } else { 5 } })
+            .chain([
             Space { kind: AlphabetKind::Memory, shape: i32f, max_len: if q { 4 } else { 5 } },
             Space { kind: AlphabetKind::Wide, shape: i32f, max_len: if q { 5 } else { 6 } },
             Space { kind: AlphabetKind::Core, shape: i32f, max_len: if q { 6 } else { 7 } },
             Space { kind: AlphabetKind::Hosts, shape: hosts, max_len: if q { 5 } else { 7 } },
-        ],
+        ])
+            .collect(),
     }
 }
 
@@ -316,6 +334,10 @@ fn run_program_property(cli: &Cli, prop: Prop) -> ! {
     if prop == Prop::C01 {
         optable::run(&report, cli.tier);
     }
+    // module structures the body search keeps fixed (C01 against the reference, C13 fresh vs. reloaded)
+    if prop != Prop::C02 {
+        structure::run(&cfg, &report, cli.tier);
+    }
     report.state(states);
     report.set_technique("bounded exhaustive enumeration (stateless DFS over reference-validator states) of Wasm function bodies, each executed on the real engine and compared with a reference interpreter");
     report.set_rule("every well-typed function body of at most max_body_len instructions over the listed alphabets, in a fixed module template, run on every argument tuple and build; a body is non-trivial if its reference outcomes over the argument tuples are not all equal");
@@ -328,7 +350,7 @@ fn run_program_property(cli: &Cli, prop: Prop) -> ! {
 
 /// Determinism self-test: the same recorded case run twice must give identical observations.
 fn self_test(report: &Report, cfg: &Cfg) {
-    let shape = Shape { ret: Some(VT::I32), hosts: false };
+    let shape = Shape { ret: Some(VT::I32), hosts: false, extra: 0 };
     let body = vec![Instr::LocalGet(0), Instr::LocalGet(1), Instr::Num(0x6B)];
     let quiet = Report::new(&Cli { property: format!("{}-selftest", report.property), tier: report.tier, replay: None, seed: 0, extra: Default::default() });
     let mut s1 = Stats::default();
